@@ -266,6 +266,17 @@ impl LyNative for IterTake {
       );
     }
 
+    if take_count < 0.0 {
+      return Call::Err(
+        self
+          .call_error(
+            hooks,
+            "Method take takes an non negative integer parameter.",
+          )
+          .expect_err("Expected Err"),
+      );
+    }
+
     let take_count = take_count as usize;
     let inner_iter: Box<dyn Enumerate> = Box::new(TakeIterator::new(iter, take_count));
     let take_iter = hooks.manage_obj(Enumerator::new(inner_iter));
